@@ -5,7 +5,8 @@ wt="$1"; k="$2"; d="$wt/_seed/$k"
 if [ -f "$d/demo.py" ]; then demo="$d/demo.py"; elif [ -f "$d/demo.sh" ]; then demo="$d/demo.sh"; else demo=$(ls "$d"/demo.* | head -1); fi
 cd "$wt" || exit 2
 git checkout -q -- . && make -j16 >/dev/null 2>&1
-git apply "$d/patch.diff" || { echo "RESULT $wt $k apply-failed"; exit 1; }
+git apply "$d/patch.diff" 2>/dev/null || patch -p1 -s -f -i "$d/patch.diff" >/dev/null 2>&1 || { echo "RESULT $wt $k apply-failed"; git checkout -q -- .; exit 1; }
+find . -name "*.orig" -newer "$d/patch.diff" -delete 2>/dev/null
 make -j16 >"$d/build.log" 2>&1 || { echo "RESULT $wt $k build-failed"; git checkout -q -- .; exit 1; }
 warn=$(grep -c 'warning:' "$d/build.log")
 pass=$(make check 2>&1 | grep -E '^# PASS:' | awk '{print $3}')
